@@ -63,3 +63,9 @@ from props_sun import SunProp  # noqa: E402
 _reg(SunProp(['Ea.C18.ceilSec_spec', 'Ea.C18.sunFind_spec', 'Ea.C18.sunNextRaw_spec', 'Ea.C18.sun_result_is_event',
               'Ea.C18.no_location', 'Ea.C18.sun_same_date', 'Ea.C18.sun_midnight_fires_twice', 'Ea.C18.sun_tries_matches']))
 _reg(SchedProp('C03', ['Ea.C03.reschedule_is_next_occurrence', 'Ea.inv_reachable', 'Ea.C05.getNext_least', 'Ea.C04.getNext_gt', 'Ea.C01.never_early']))
+
+from props_pure import PureProp  # noqa: E402
+
+_reg(PureProp(['Ea.C15.interval_anchor_irrelevant', 'Ea.C15.interval_result_on_grid', 'Ea.C15.anchor_idempotent',
+               'Ea.C15.object_is_pure_after_first_query', 'Ea.C15.sun_cache_transparent', 'Ea.C15.cache_cleared_is_consistent',
+               'Ea.C15.cache_sizes', 'Ea.C15.gridAfter_shift']))
